@@ -22,7 +22,8 @@ Import ListNotations.
 From RX Require Import Generated.
 From RX.Model Require Import Base CharClass Stream Tokenizer Doc Builder Parse Api.
 From RX.Proofs Require Import LexerProofs NoPanicTokenizer RangeTokenizer RangeArena RangeInv RangeBuilder RangeParse RangeAttrLocal RangeAttrTok RangeAttrParse RangeShiftBase RangeShiftStream RangeShiftTokenizer RangeShiftBuilder RangeShiftParse RangeShiftFinal CstRangeDefs CstRangeMain CstRangeTDefs CstRangeTMain CstEntDoc CstRangeEDefs CstRangeEMain CstRangeEValid.
-From RX.Spec Require Cst CstText CstEnt.
+From RX.Spec Require Cst CstText CstEnt CstFull.
+From RX.Proofs Require CstRangeFDefs CstRangeFS2.
 Open Scope N_scope.
 
 (* ---- Proofs/RangeParse.v ---- *)
@@ -179,8 +180,43 @@ Print Assumptions C13_ranges_valid_e.
 
 End G6.
 
-(* ---- Proofs/RangeTokenizer.v ---- *)
+(* ---- Proofs/CstRangeFS2.v ---- *)
 Module G7.
+Import RX.Spec.CstFull. Import RX.Proofs.CstRangeFDefs. Import RX.Proofs.CstRangeFS2.
+Theorem C13_parse_render_ranges_f2 :
+  forall (c : S2.doc) (opt : options) d,
+  S2.wf_doc c = true ->
+  N.of_nat (length (S2.sem c)) < nodes_limit opt ->               (* room for all nodes + the Root *)
+  N.of_nat (length (S2.render c)) <= u32_max ->                    (* the input is at most u32::MAX bytes long *)
+  S2.distinct_decls_le c (N.to_nat 65535) ->                       (* at most 65535 distinct declared bindings *)
+  1 + N.of_nat (S2.ns_cost c) <= u32_max ->                        (* the namespace table fits *)
+  parse (S2.render c) opt = Ok d ->
+  (* every node below the Root, in document order: the span of its construct in the UTF-8 rendering *)
+  map nd_range (tl (d_nodes d)) = fspans2 c /\
+  (exists root, nth_N (d_nodes d) 0 = Some root /\ nd_range root = (0, N.of_nat (length (S2.render c)))) /\
+  (* all these offsets are on character boundaries *)
+  Forall (fun r => is_boundary (S2.render c) (fst r) = true /\ is_boundary (S2.render c) (snd r) = true) (fspans2 c).
+Proof. exact parse_render_ranges_f2. Qed.
+Print Assumptions C13_parse_render_ranges_f2.
+
+Theorem C13_parse_render_attr_ranges_f2 :
+  forall (c : S2.doc) (opt : options) d,
+  S2.wf_doc c = true ->
+  N.of_nat (length (S2.sem c)) < nodes_limit opt ->
+  N.of_nat (length (S2.render c)) <= u32_max ->
+  S2.distinct_decls_le c (N.to_nat 65535) ->
+  1 + N.of_nat (S2.ns_cost c) <= u32_max ->
+  fattrs_small2 c ->                                           (* below the saturation limits *)
+  parse (S2.render c) opt = Ok d ->
+  map (fun a => (ad_range a, attr_range_qname a, attr_range_value a)) (d_attrs d) =
+  map (fun s => (fa_range s, fa_qname s, Ok (fa_value s))) (fattr_spans2 c).
+Proof. exact parse_render_attr_ranges_f2. Qed.
+Print Assumptions C13_parse_render_attr_ranges_f2.
+
+End G7.
+
+(* ---- Proofs/RangeTokenizer.v ---- *)
+Module G8.
 Local Notation token := Tokenizer.token.
 Theorem C13_tokenizer_token_ranges :
   forall text (C : Type) (ev : token -> C -> res C)
@@ -192,10 +228,10 @@ Theorem C13_tokenizer_token_ranges :
 Proof. exact tokenizer_token_ranges. Qed.
 Print Assumptions C13_tokenizer_token_ranges.
 
-End G7.
+End G8.
 
 (* ---- Proofs/LexerProofs.v ---- *)
-Module G8.
+Module G9.
 Local Notation token := Tokenizer.token.
 Theorem C13_parse_comment_post :
   forall (text : bytes), forall s acc s' acc', SInv text s ->
@@ -266,7 +302,7 @@ Theorem C13_parse_close_element_post :
 Proof. exact parse_close_element_post. Qed.
 Print Assumptions C13_parse_close_element_post.
 
-End G8.
+End G9.
 
 
 (* the slice shapes of C13, for every node of every parsed rendering of the Cst fragment *)
